@@ -37,8 +37,8 @@ EXPLANATION = (
   "forward order, decoded by action_from_repr, to the gateway, unconditionally. R3: a replayed "
   "explicit value of a trigger-formula column is not recalculated: DocActions.BulkUpdateRecord "
   "exempts every non-formula column it writes (same rows), the exemption map is written only by "
-  "Engine.prevent_recalc, cleared only at the start of each user action, only read (never "
-  "consumed) by _recompute_step, which subtracts the exempt rows before scanning, and exemptions "
+  "Engine.prevent_recalc, cleared only by apply_user_actions and never between applying a user "
+  "action and the recalculation that follows, only read (never consumed) by _recompute_step, which subtracts the exempt rows before scanning, and exemptions "
   "are lifted only by user-level code (which a replay never runs). Relies "
   "on C02-R1/R2/R6 and C01-R4. Not decided: equality of the replayed state (formulas that are "
   "not functions of the document are outside any structural rule).")
